@@ -435,7 +435,12 @@ func (e *Engine) addFrameTarget(f *frame, mt modTarget, m *Clause) {
 		if _, isArr := under(mt.place.typ).(*types.Array); isArr {
 			f.blocks = append(f.blocks, mt.place.addr)
 		} else {
-			f.cells = append(f.cells, cellRange{mt.place.addr, Add(mt.place.addr, I(int64(e.cells(mt.place.typ))))})
+			cr := cellRange{lo: mt.place.addr, hi: Add(mt.place.addr, I(int64(e.cells(mt.place.typ))))}
+			switch under(mt.place.typ).(type) {
+			case *types.Basic, *types.Pointer, *types.Map, *types.Chan, *types.Signature, *types.Slice, *types.Interface:
+				cr.key = mt.place.key
+			}
+			f.cells = append(f.cells, cr)
 			e.frameArrayBlocks(f, mt.place.addr, mt.place.typ)
 		}
 		return
@@ -447,7 +452,7 @@ func (e *Engine) addFrameTarget(f *frame, mt modTarget, m *Clause) {
 			if _, isArr := under(pt.Elem()).(*types.Array); isArr {
 				f.blocks = append(f.blocks, x.t)
 			} else {
-				f.cells = append(f.cells, cellRange{x.t, Add(x.t, I(int64(e.cells(pt.Elem()))))})
+				f.cells = append(f.cells, cellRange{lo: x.t, hi: Add(x.t, I(int64(e.cells(pt.Elem()))))})
 				e.frameArrayBlocks(f, x.t, pt.Elem())
 			}
 		} else {
